@@ -150,6 +150,12 @@ func (r *recallWantlist) removeType(c cid.Cid, wtype pb.Message_Wantlist_WantTyp
 // Returns true if the want was marked as sent. Returns false if the want wasn't
 // pending.
 func (r *recallWantlist) markSent(e bswl.Entry) bool {
+	// The pending want must still be of the type that was put into the
+	// message. If a want-block was cancelled and re-added as a want-have while
+	// the message was being built, the want-have is still to be sent.
+	if cur, ok := r.pending.Get(e.Cid); !ok || cur.WantType != e.WantType {
+		return false
+	}
 	if !r.pending.RemoveType(e.Cid, e.WantType) {
 		return false
 	}
